@@ -2,11 +2,12 @@
 # For every seeded change (and the regression patches undoing each repair) run the quick checks
 # against a scratch worktree of /repo with the change applied; writes <id>/detect.json and a table.
 # usage: tools/matrix.sh [ids...]     env PROPS="C01 C02 ..." limits the checks
-W=/tmp/wv_matrix
-OUT=/tmp/wv_matrix_out
+HERE="$(cd "$(dirname "$0")" && pwd)"
+W=${W:-/tmp/wv_matrix}
+OUT=${OUT:-/tmp/wv_matrix_out}
 ALL="C01 C02 C03 C04 C05 C06 C07 C08 C09 C10 C11 C12 C13 C14 C15 C16 C17 C18"
 mkdir -p $OUT
-for d in ${@:-/verif/seeded/*}; do
+for d in ${@:-$HERE/../seeded/*}; do
   id=$(basename $d)
   [ -f $d/patch.diff ] || continue
   git -C /repo worktree remove --force $W >/dev/null 2>&1; rm -rf $W
@@ -15,12 +16,12 @@ for d in ${@:-/verif/seeded/*}; do
   git -C $W apply $d/patch.diff || { echo "$id: patch does not apply"; continue; }
   caught=""; missed=""; errs=""
   for p in ${PROPS:-$ALL}; do
-    VERIF_OUT_DIR=$OUT WALLEYE_REPO=$W timeout 1700 /verif/check $p --tier quick > $OUT/$id.$p.log 2>&1
+    VERIF_OUT_DIR=$OUT WALLEYE_REPO=$W timeout 1700 $HERE/../check $p --tier quick > $OUT/$id.$p.log 2>&1
     rc=$?
     if [ $rc -eq 1 ]; then caught="$caught $p"; elif [ $rc -eq 0 ]; then missed="$missed $p"; else errs="$errs $p($rc)"; fi
   done
   first=$(grep -h -A1 "^VIOLATION" $OUT/$id.*.log | grep "family=" | head -1 | cut -c1-300 | sed 's/"/\\"/g')
-  echo "{\"id\":\"$id\",\"tier\":\"quick\",\"seed\":0,\"checks_reporting_a_violation\":\"$(echo $caught)\",\"checks_silent\":\"$(echo $missed)\",\"checks_inconclusive\":\"$(echo $errs)\",\"example\":\"$first\"}" > $d/detect.json
+  echo "{\"id\":\"$id\",\"tier\":\"quick\",\"seed\":0,\"checks_reporting_a_violation\":\"$(echo $caught)\",\"checks_silent\":\"$(echo $missed)\",\"checks_inconclusive\":\"$(echo $errs)\",\"example\":\"$first\"}" > $OUT/$id.detect.json; cp $OUT/$id.detect.json $d/detect.json 2>/dev/null
   echo "$id caught_by:[$caught ] inconclusive:[$errs ]"
 done
 git -C /repo worktree remove --force $W >/dev/null 2>&1; git -C /repo worktree prune
